@@ -1,6 +1,6 @@
 SPECIFICATION Spec
-CONSTANT Depth = 5
-CONSTANT MaxW = 6
+CONSTANT Depth = 4
+CONSTANT MaxW = 5
 CONSTANT Small = TRUE
 CONSTRAINT Bound
 VIEW View
